@@ -60,6 +60,16 @@ def parafac_opts(group):
         if group == "fixed_modes":
             o["fixed_modes"] = fixed_modes_of(draw, order)
             o["normalize"] = draw(st.booleans())
+        if group == "l2_reg":
+            # the reported values stay plain relative reconstruction errors (docstring: "reconstruction errors"),
+            # not the penalised objective
+            o["l2_reg"] = draw(st.sampled_from([0.01, 0.1, 0.5, 2.0]))
+            o["normalize"] = draw(st.booleans())
+        if group == "orthogonalise":
+            o["orthogonalise"] = draw(st.sampled_from([True, 1, 2, 3]))
+            o["normalize"] = draw(st.booleans())
+        if group in ("l2_reg", "orthogonalise", "plain", "normalize"):
+            o["api"] = draw(st.sampled_from(["function", "function", "class"]))
         if group in ("normalize", "normalize_o2"):
             o["normalize"] = True
         if group == "linesearch":
@@ -85,6 +95,9 @@ def nn_opts(group, hals):
             o["normalize"] = True
         else:
             o["normalize"] = bool(order >= 3 and draw(st.booleans()))
+        o["cvg"] = draw(st.sampled_from(["abs_rec_error", "rec_error"]))
+        if c["init"]["kind"] == "user" and order >= 2 and draw(st.integers(0, 3)) == 0:
+            o["fixed_modes"] = fixed_modes_of(draw, order)
         if hals and group != "svd_init":
             nn = draw(st.sampled_from(["all", "all", "subset", "none"]))
             if nn == "subset":
@@ -101,7 +114,11 @@ def nn_opts(group, hals):
 
 def constrained_opts(draw, c):
     names = sorted(xi.CONSTRAINTS)      # rank 1 with simplex / soft_sparsity included (crashed before c831d82)
-    return {"constraint": draw(st.sampled_from(names)), "n_inner": draw(st.sampled_from([1, 3, 10]))}
+    o = {"constraint": draw(st.sampled_from(names)), "n_inner": draw(st.sampled_from([1, 3, 10])),
+         "tol_inner": draw(st.sampled_from([1e-6, 1e-2])), "cvg": draw(st.sampled_from(["abs_rec_error", "rec_error"]))}
+    if c["init"]["kind"] == "user" and draw(st.integers(0, 3)) == 0:
+        o["fixed_modes"] = fixed_modes_of(draw, len(c["X"]["s"]))
+    return o
 
 
 @st.composite
@@ -129,6 +146,8 @@ def nn_tucker_opts(algorithm=None):
             o["algorithm"] = algorithm
             if draw(st.booleans()):
                 o["sparsity_coefficients"] = [draw(st.sampled_from([None, 0.01, 0.1])) for _ in c["X"]["s"]]
+            if algorithm == "fista" and draw(st.booleans()):
+                o["core_sparsity"] = draw(st.sampled_from([0.01, 0.1]))
         return o
     return f
 
@@ -195,7 +214,8 @@ def cmtf_case(draw, iters=ITERS, tols=(1e-14, 1e-2)):
 
 @st.composite
 def rand_case(draw):
-    c = draw(cp_case(orders=(2, 3, 4), inits=("random", "svd")))
+    # tol 0 / None and max_stagnation 0 = no stopping rule: the callback must still receive the current error
+    c = draw(cp_case(orders=(2, 3, 4), inits=("random", "svd"), tols=(1e-14, 1e-2, 0.0, None)))
     c["n_samples"] = draw(st.integers(max(c["rank"], 2), 12)) if draw(st.integers(0, 7)) else draw(st.integers(1, 3))
     c["max_stagnation"] = draw(st.sampled_from([20, 0, 2]))
     return c
@@ -255,6 +275,9 @@ def o_errors_cb(A):
         errs = xi.all_finite(errs, "errors")
         sweeps = [s for (s, _) in rec.calls[1:]]
         check(len(sweeps) >= 1, "callback/invoked", "the callback was never invoked after a sweep")
+        if not errs and A.errors_optional(case):
+            # no stopping rule active: the function keeps no history (nothing is reported, nothing to check)
+            return _labels(case, 0, 1.0, ["history=none(no stopping rule)"])
         check(len(errs) >= 1, "errors/empty", lambda: f"no error reported for {len(sweeps)} sweeps")
         mvs = [A.mvec(s, data, case) for s in sweeps]
         ls = bool(case.get("linesearch"))
@@ -378,7 +401,8 @@ def subchecks(tier):
     P = xi.Parafac()
     groups = {"plain": dict(orders=(2, 3, 4)), "normalize": dict(orders=(3, 4)), "normalize_o2": dict(orders=(2,)),
               "linesearch": dict(orders=(2, 3, 4), iters=[3, 7, 8, 9, 12, 12, 17, 24], scales=xi.SCALES), "sparsity": dict(orders=(2, 3, 4)),
-              "fixed_modes": dict(orders=(2, 3, 4), inits=("user",), iweights=("none", "ones", "pos", "mixed"))}
+              "fixed_modes": dict(orders=(2, 3, 4), inits=("user",), iweights=("none", "ones", "pos", "mixed")),
+              "l2_reg": dict(orders=(2, 3, 4)), "orthogonalise": dict(orders=(2, 3, 4))}
     for g, kw in groups.items():
         strat = cp_case(opts=parafac_opts(g), **kw)
         add(f"parafac/{g}/callback", strat, o_callback(P), quick=80, thorough=400)
@@ -412,21 +436,21 @@ def subchecks(tier):
 
     # --- constrained_parafac -----------------------------------------------
     C = xi.ConstrainedParafac()
-    add("constrained_parafac/return_errors", cp_case(opts=constrained_opts), o_errors(C), quick=50, thorough=250)
+    add("constrained_parafac/return_errors", cp_case(opts=constrained_opts, tols=(1e-14, 1e-2, 0.0)), o_errors(C), quick=50, thorough=250)
     add("constrained_parafac/prefix", cp_case(opts=constrained_opts, tols=(1e-14,), iters=[2, 3, 5, 7]), o_prefix(C),
         quick=40, thorough=160)
 
     # --- Tucker ------------------------------------------------------------
     T, PT = xi.TuckerHOOI(), xi.PartialTucker()
-    add("tucker/return_errors", tucker_case(), o_errors(T), quick=80, thorough=400)
+    add("tucker/return_errors", tucker_case(tols=(1e-14, 1e-2, 0.0)), o_errors(T), quick=80, thorough=400)
     add("tucker/prefix", tucker_case(tols=(1e-14,), iters=[2, 3, 7, 9]), o_prefix(T), quick=60, thorough=300)
-    add("partial_tucker/return_errors", tucker_case(partial=True), o_errors(PT), quick=80, thorough=400)
+    add("partial_tucker/return_errors", tucker_case(partial=True, tols=(1e-14, 1e-2, 0.0)), o_errors(PT), quick=80, thorough=400)
     add("partial_tucker/prefix", tucker_case(partial=True, tols=(1e-14,), iters=[2, 3, 7, 9]), o_prefix(PT),
         quick=60, thorough=300)
 
     NT, NH = xi.NNTuckerMU(), xi.NNTuckerHALS()
     add("non_negative_tucker/random_init/return_errors",
-        tucker_case(kinds=nn_kinds, inits=("random", "user"), opts=nn_tucker_opts()), o_errors(NT), quick=60, thorough=300)
+        tucker_case(kinds=nn_kinds, inits=("random", "user"), opts=nn_tucker_opts(), tols=(1e-14, 1e-2, 0.0)), o_errors(NT), quick=60, thorough=300)
     add("non_negative_tucker/random_init/prefix",
         tucker_case(kinds=nn_kinds, inits=("random", "user"), opts=nn_tucker_opts(), tols=(1e-14,), iters=[2, 3, 7, 9]),
         o_prefix(NT), quick=50, thorough=250)
@@ -434,7 +458,7 @@ def subchecks(tier):
         tucker_case(kinds=nn_kinds, inits=("svd",), opts=nn_tucker_opts()), o_errors(NT), quick=60, thorough=300, exc=())
     for alg in ("fista", "active_set"):
         add(f"non_negative_tucker_hals/{alg}/return_errors",
-            tucker_case(kinds=nn_kinds, inits=("random", "user"), opts=nn_tucker_opts(alg), iters=[1, 2, 3, 5]),
+            tucker_case(kinds=nn_kinds, inits=("random", "user"), opts=nn_tucker_opts(alg), iters=[1, 2, 3, 5], tols=(1e-14, 1e-2, 0.0)),
             o_errors(NH), quick=30, thorough=120)
     add("non_negative_tucker_hals/svd_init/return_errors",
         tucker_case(kinds=nn_kinds, inits=("svd",), opts=nn_tucker_opts("fista"), iters=[1, 2, 3, 5]),
@@ -458,5 +482,5 @@ def subchecks(tier):
     # --- CMTF --------------------------------------------------------------
     CM = xi.CMTF()
     add("cmtf/prefix", cmtf_case(tols=(1e-14,), iters=[2, 3, 7, 9]), o_prefix(CM, skip_early=True), quick=60, thorough=300)
-    add("cmtf/last", cmtf_case(), o_errors(CM, converged_label=True), quick=80, thorough=400)
+    add("cmtf/last", cmtf_case(tols=(1e-14, 1e-2, 0.0)), o_errors(CM, converged_label=True), quick=80, thorough=400)
     return S
